@@ -18,7 +18,7 @@ class RecursiveMutex {
 
   using native_handle_type = void*;
 
-  inline native_handle_type native_handle();
+  native_handle_type native_handle();
 
  protected:
   void LockHelper();
